@@ -282,8 +282,15 @@ func mutate(t *kernel.Tape, p params, payload []byte, capBytes int) (out []byte,
 	case "zkm-bloat":
 		// the in-band secret marker in place of the p.Off-th run, followed by a "secret"
 		// many times the cap: the capped readers must bound what follows the marker too
-		k, start := 0, 0
+		base := 8 // the expression strings follow the 8-byte expression count
+		if p.Entry == "ccb-reverse-connect" {
+			base = 16 // ... which follows the command integer
+		}
+		k, start := 0, base
 		for i, b := range out {
+			if i < base {
+				continue
+			}
 			if b == 0 {
 				if k == p.Off && i-start >= 3 {
 					rep := append([]byte("ZKM"), 0)
